@@ -106,12 +106,12 @@ def run(ctx):
     for name, w, odds in SCRIPTS:
         if not ctx.want(name):
             continue
-        sim = ctx.tlc("crash", "Crash", "SIM.cfg", simulate=(4 if q else 150), depth=4000, workers=4 if q else 8, files=files,
+        sim = ctx.tlc("crash", "Crash", "SIM.cfg", simulate=(4 if q else 12), depth=4000, workers=4 if q else 8, files=files,
                       constants={"ScriptName": '"%s"' % name, "W": w, "CrashOdds": odds}, timeout=(300 if q else 3000))
         ctx.account(sim)
         ctx.log("SIM %s: %d behaviours" % (name, len(sim.emitted)))
         behs += sim.emitted
-    cases = to_cases(behs, rnd, 6 if q else 60)
+    cases = to_cases(behs, rnd, 6 if q else 12)
     full = [c for c in cases if c["w"][-1]["a"] == "End"]
     part = [c for c in cases if c["w"][-1]["a"] != "End"]
     if q:
@@ -119,6 +119,10 @@ def run(ctx):
         rnd.shuffle(full)
         rnd.shuffle(part)
         full, part = full[:6], part[:40]
+    else:
+        rnd.shuffle(full)
+        rnd.shuffle(part)
+        full, part = full[:30], part[:250]
     cases = full + part
     if not cases:
         raise Exception("no behaviours")
@@ -137,7 +141,7 @@ def run(ctx):
             break
     inp = ctx.write_ndjson("cases.ndjson", cases)
     traces_out = ctx.tmp("real_traces.ndjson")
-    gr = ctx.go_test("tsdb", ["db_replay_test.go", "c03_crash_test.go"], "^TestVerifC03Crash$",
+    gr = ctx.go_test("tsdb", ["db_replay_test.go", "db_reopen_extras_test.go", "c03_crash_test.go"], "^TestVerifC03Crash$",
                      env={"VERIF_IN": inp, "C03_TRACES_OUT": traces_out}, timeout="120m")
     ctx.absorb(gr, label="C03 crash runs")
     # (T) the hook traces of the dry runs must be behaviours of Crash.tla (Trace_Crash.tla, one TLC run per OOO window)
